@@ -19,7 +19,7 @@ RULE = (
 )
 ASSUMPTIONS = ["encoder vf/ref/cosem_enc.py and the frozen layouts in vf/ref/names.py are the specification side"]
 WATCHDOG_S = {"quick": 900, "thorough": 7200}
-N = {"quick": 200, "thorough": 9500}
+N = {"quick": 600, "thorough": 9500}
 
 
 def plan(tier, seed):
